@@ -3,7 +3,8 @@
 domain : the operation histories of C09 (hash-map variables of every format,
          Dict insert / get / delete / pop with and without default / iteration,
          per-CPU map reads, program-side operations in between) on randomly
-         declared maps, with 1-16 possible CPUs of which 0-3 are offline.
+         declared maps, with 1-24 possible CPUs (listed in sysfs in any cpulist
+         notation) of which 0-3 are offline.
 monitor: ebpfcat.bpf.bpf, addrof and addressof are replaced by the user-space
          stand-in of vf/vm/fakebpf.py: every pointer argument of every syscall
          is traced back to the Python buffer it was taken from, and the number
@@ -34,7 +35,9 @@ ASSUMPTIONS = [
     "the sizes the kernel transfers are those of bpf(2): key_size, value_size, "
     "and round_up(value_size, 8) x possible CPUs for per-CPU arrays",
     "the number of possible CPUs is what /sys/devices/system/cpu/possible "
-    "reports and os.cpu_count() is the number of CPUs online (both simulated)",
+    "reports (cpulist notation: one range, several ranges, single numbers, "
+    "with or without a hole in the numbering) and os.cpu_count() is the "
+    "number of CPUs online (both simulated)",
     "array maps are accessed through mmap, not through syscalls, and are not "
     "part of this property's domain",
     "semantic disagreements of a history (C09's subject) do not count here",
@@ -47,8 +50,10 @@ MIN_NONTRIVIAL = {"quick": 150, "thorough": 3000}
 def case_strategy(draw):
     case = draw(c09.case_strategy())
     case["exec"] = "fake"
-    case["ncpu"] = draw(st.sampled_from([1, 2, 3, 4, 5, 8, 16]))
     case["online_delta"] = draw(st.sampled_from([0, 1, 1, 3]))
+    case["ncpu"] = draw(st.sampled_from([1, 2, 3, 4, 5, 8, 12, 16, 24]))
+    # notation of the list of possible CPUs in sysfs
+    case["possible_form"] = draw(st.sampled_from([0, 0, 1, 2, 3]))
     # make sure the interesting Python-side calls are there
     extra = draw(st.lists(st.sampled_from(
         ["py_hget", "py_pread", "py_dpop", "py_dpopd", "py_diter", "py_dget",
